@@ -24,8 +24,8 @@ def main(tier, seed):
     simcheck.run_f5(rep, "C08", tier, ["corner:" + a for a in ALGOS], seed)
     simcheck.run_f5(rep, "C08", tier, ["dag:" + a for a in ALGOS], seed)
     # the regular policy spaces as well: any exception out of a shipped scheduler or the executor is a C08 matter
-    simcheck.run_f5(rep, "C08", tier, ["naive", "overbook", "busy:priority-pool", "busy:priority", "ratio:priority", "ratio:priority-pool", "twice:priority", "scale:naive", "scale:overbook", "scale:starter", "longchain:naive", "longchain:priority", "longchain:priority-pool", "longchain:overbook", "longchain:starter"] if tier == "quick" else
-                    ["naive", "overbook", "priority-pool", "priority", "busy:priority-pool", "busy:priority", "ratio:priority", "ratio:priority-pool", "sibling:priority", "sibling:priority-pool", "twice:priority", "scale:naive", "scale:priority", "scale:priority-pool", "scale:overbook", "scale:starter", "longchain:naive", "longchain:priority", "longchain:priority-pool", "longchain:overbook", "longchain:starter"], seed)
+    simcheck.run_f5(rep, "C08", tier, ["naive", "overbook", "busy:priority-pool", "busy:priority", "ratio:priority", "ratio:priority-pool", "twice:priority", "retrypreempt:priority", "scale:naive", "scale:overbook", "scale:starter", "longchain:naive", "longchain:priority", "longchain:priority-pool", "longchain:overbook", "longchain:starter"] if tier == "quick" else
+                    ["naive", "overbook", "priority-pool", "priority", "busy:priority-pool", "busy:priority", "ratio:priority", "ratio:priority-pool", "sibling:priority", "sibling:priority-pool", "twice:priority", "retrypreempt:priority", "scale:naive", "scale:priority", "scale:priority-pool", "scale:overbook", "scale:starter", "longchain:naive", "longchain:priority", "longchain:priority-pool", "longchain:overbook", "longchain:starter"], seed)
     return rep.finish(PRED)
 
 
